@@ -232,8 +232,18 @@ class Canon:
                             len(b[0][1][1]) == 1 and isinstance(b[0][1][1][0], int):
                         # a, b = <expr>   ->  a is <expr>[0]
                         src, path = b[0][1]
-                        return ast.Subscript(value=canon.resolve(src, depth - 1), slice=ast.Constant(value=path[0]),
-                                             ctx=ast.Load())
+                        val = canon.resolve(src, depth - 1)
+                        if isinstance(val, (ast.Tuple, ast.List)) and 0 <= path[0] < len(val.elts):
+                            return val.elts[path[0]]
+                        return ast.Subscript(value=val, slice=ast.Constant(value=path[0]), ctx=ast.Load())
+                return n
+
+            def visit_Subscript(self, n):
+                n = self.generic_visit(n)
+                # (a, b)[0]  is  a   (a helper that returns a tuple, unpacked by its caller)
+                if isinstance(n.value, (ast.Tuple, ast.List)) and isinstance(n.slice, ast.Constant) and \
+                        isinstance(n.slice.value, int) and 0 <= n.slice.value < len(n.value.elts):
+                    return n.value.elts[n.slice.value]
                 return n
 
             def visit_Call(self, n):
